@@ -383,3 +383,77 @@ def c05_2(I, shape):
             se.clientCertChain
     I.check(chain is None or not sc.completed(victim_ep),
             "no-peer-chain-recorded")
+
+
+# ---------------------------------------------------------------------------
+# C05.3  a wrong Finished is never accepted (live pair, both roles)
+# ---------------------------------------------------------------------------
+
+def _shapes_c05_3(tier):
+    out = []
+    for scen in ("tls13", "tls13-psk", "tls12-ecdhe", "tls12-rsa-cbc",
+                 "tls10-ecdhe"):
+        for liar in ("server", "client"):
+            for mode in ("arbitrary", "bitflip", "short", "long", "empty"):
+                out.append(dict(scenario=scen, liar=liar, mode=mode))
+    return out
+
+
+@obligation("C05.3", _shapes_c05_3,
+            functions=["tlslite.tlsconnection:TLSConnection."
+                       "_clientTLS13Handshake",
+                       "tlslite.tlsconnection:TLSConnection."
+                       "_serverTLS13Handshake",
+                       "tlslite.tlsconnection:TLSConnection._getFinished",
+                       "tlslite.tlsconnection:TLSConnection._sendFinished",
+                       "tlslite.messages:Finished.parse"],
+            assumes=P.PAIR_ASSUMES + [
+                "one endpoint runs the real code but sends a Finished whose "
+                "verify_data is arbitrary-but-different, bit-flipped, one "
+                "byte short, one byte long or empty; fixed randoms"],
+            patches=_pair_patches5, max_paths=400, timeout=(600, 1800),
+            also=("C04",))
+def c05_3(I, shape):
+    """the endpoint that receives a Finished whose verify_data is not the
+    value over its own transcript never completes the handshake"""
+    scen, liar, mode = shape["scenario"], shape["liar"], shape["mode"]
+    if scen == "tls13-psk":
+        cset, sset = P.settings13(), P.settings13()
+        secret = I.bytes(32, "psk")
+        for st in (cset, sset):
+            st.pskConfigs = [(bytearray(b"ident"), newbuf(list(secret)),
+                              "sha256")]
+        sc = P.Scenario(I, PAIR_RND5, cset, sset, server_cred=None,
+                        intctxt=True)
+    elif scen == "tls12-rsa-cbc":
+        sc = P.Scenario(I, PAIR_RND5,
+                        P.settings12((3, 3), "rsa", "aes128", "sha"),
+                        P.settings12((3, 3), "rsa", "aes128", "sha"),
+                        server_cred="rsa", intctxt=True)
+    else:
+        sc = P.Scenario(I, PAIR_RND5, _settings5(scen), _settings5(scen),
+                        server_cred="rsa", intctxt=True)
+    genuine = []
+    orig_c, orig_s = sc.cgen, sc.sgen
+
+    def cgen(conn):
+        if liar == "client":
+            genuine.append(P.corrupt_finished(conn, I, mode))
+        return orig_c(conn)
+
+    def sgen(conn):
+        if liar == "server":
+            genuine.append(P.corrupt_finished(conn, I, mode))
+        return orig_s(conn)
+    sc.cgen, sc.sgen = cgen, sgen
+    sc.run()
+    I.check(len(genuine) == 1 and len(genuine[0]) == 1,
+            "the-dishonest-side-sent-its-finished",
+            detail=lambda: dict(c=repr(sc.cep.error), s=repr(sc.sep.error),
+                                crash=sc.cep.crash or sc.sep.crash))
+    victim_ep = sc.cep if liar == "server" else sc.sep
+    I.check(victim_ep.crash is None, "no-raw-exception-from-the-handshake",
+            detail=lambda: dict(tb=victim_ep.crash))
+    I.check(not sc.completed(victim_ep),
+            "handshake-does-not-complete-on-a-wrong-finished",
+            detail=lambda: dict(error=repr(victim_ep.error)))
